@@ -10,6 +10,10 @@
 # Family A adds the histories in which an install cannot complete (an obstacle at the destination of any entry of the
 # model, or a vanished source): the stopped run must stay within the plan and log all it created, uninstall must give
 # back the pre-install tree, and after removing the obstacle a second install must equal an undisturbed one.
+# Family G adds the dimension "destination directory x no explicit install_tag" to the --tags clause: every kind of rule
+# that is tagged from its destination, installed into every standard directory, directories below them and look-alike
+# siblings (bin-extra, libexec, share/locale-archive ...), with every single documented tag selected; the expected
+# selection comes from the tag list of Installing.md (c11model.documented_tags).
 import hashlib, itertools, json, os, re, shutil, stat, subprocess, sys, time
 from collections import deque
 from verif.core import Check, pmap, run_main, scratch_root, REPO, VERIF
@@ -185,7 +189,9 @@ class World:
             self.treeroot = os.path.join(root, 'sys')
             self.destarg = None
             self.prefix, self.absbase = self.treeroot + pfx, self.treeroot
-        self.proj = M.make_project(job['rules'], self.absbase, job.get('with_sub', False), job.get('sub_style', 'plain'))
+        self.proj = M.make_project(job['rules'], self.absbase, job.get('with_sub', False), job.get('sub_style', 'plain'),
+                                   guess=job.get('guess'), prefix=self.prefix)
+        self.dirs = dict(M.DIRSETS[job['guess']['dirset']]) if job.get('guess') else None
         self.umask = job['umask']
         self.touched = None       # (path, kind) of the file that action C touches
         self.touch_base = None
@@ -236,6 +242,9 @@ class World:
             os.makedirs(os.path.dirname(p), exist_ok=True)
             os.symlink(tg, p)
         argv = ['setup', self.b, self.src, '--prefix', self.prefix, '--libdir', 'lib', '-Dinstall_umask=' + self.umask]
+        if self.dirs is not None:
+            # every directory option the tag rules mention is given explicitly (the defaults of some depend on the host)
+            argv = argv[:5] + ['-Dinstall_umask=' + self.umask] + ['-D%s=%s' % kv for kv in sorted(self.dirs.items())]
         if not self.proj.needs_c:
             argv.append('--backend=none')
         r = mp.run_meson(argv, self.root, self.env(with_destdir=False))
@@ -377,29 +386,44 @@ def resolve_alias(obs, rel):
     return rel
 
 
+class Problems(list):
+    """list of (key, text); .entries[i] = the entry of the model that problem i is about (or None)"""
+
+    def __init__(self):
+        super().__init__()
+        self.entries = []
+
+    def add(self, key, text, entry=None):
+        self.append((key, text))
+        self.entries.append(entry)
+
+    def first(self, n):
+        return [(k, t, e) for (k, t), e in list(zip(self, self.entries))[:n]]
+
+
 def compare_tree(w, obs, exp, act):
-    """-> list of (key, text)"""
-    out = []
+    """-> Problems (a list of (key, text))"""
+    out = Problems()
     for rel, x in exp.items():
         rid = x.entry.rule.rid if x.entry is not None else 'preexisting-or-parent'
         o = obs.get(rel)
         if o is None:
             if not x.optional:
-                out.append(('C11:%s:missing:%s' % (act, rid), 'expected %s %r is missing' % (x.kind, rel)))
+                out.add('C11:%s:missing:%s' % (act, rid), 'expected %s %r is missing' % (x.kind, rel), x.entry)
             continue
         if o[0] != x.kind:
-            out.append(('C11:%s:type:%s' % (act, rid), '%r is a %s, expected %s' % (rel, o[0], x.kind)))
+            out.add('C11:%s:type:%s' % (act, rid), '%r is a %s, expected %s' % (rel, o[0], x.kind), x.entry)
             continue
         if x.kind == 'file':
             if sha(o[2]) != x.val:
-                out.append(('C11:%s:content:%s' % (act, rid), 'content of %r differs from its install source' % rel))
+                out.add('C11:%s:content:%s' % (act, rid), 'content of %r differs from its install source' % rel, x.entry)
             if x.mode is not M.UNSPEC and o[1] != x.mode:
                 how = 'explicit' if (x.entry is not None and x.entry.mode is not None) else ('umask-' + w.umask if x.entry is not None else 'preexisting')
-                out.append(('C11:%s:mode:%s:%s' % (act, rid, how), 'mode of %r is %o, expected %o' % (rel, o[1], x.mode)))
+                out.add('C11:%s:mode:%s:%s' % (act, rid, how), 'mode of %r is %o, expected %o' % (rel, o[1], x.mode), x.entry)
         elif x.kind == 'dir':
             if x.mode is not M.UNSPEC and o[1] != x.mode:
                 how = 'explicit' if (x.entry is not None and x.entry.mode is not None) else ('umask-' + w.umask if x.entry is not None else 'preexisting')
-                out.append(('C11:%s:dirmode:%s:%s' % (act, rid, how), 'mode of directory %r is %o, expected %o' % (rel, o[1], x.mode)))
+                out.add('C11:%s:dirmode:%s:%s' % (act, rid, how), 'mode of directory %r is %o, expected %o' % (rel, o[1], x.mode), x.entry)
         elif x.kind == 'link':
             if x.alias:
                 want = os.path.normpath(os.path.join(os.path.dirname(rel), x.val))
@@ -407,12 +431,25 @@ def compare_tree(w, obs, exp, act):
                 if x.optional and end not in obs:
                     continue      # --tags left out a link of the chain (alias tags are not documented)
                 if end != want:
-                    out.append(('C11:%s:alias:%s' % (act, rid), 'alias %r resolves to %r, expected %r' % (rel, resolve_alias(obs, rel), want)))
+                    out.add('C11:%s:alias:%s' % (act, rid), 'alias %r resolves to %r, expected %r' % (rel, resolve_alias(obs, rel), want), x.entry)
             elif o[2] != x.val:
-                out.append(('C11:%s:linktarget:%s' % (act, rid), 'symlink %r points to %r, expected %r' % (rel, o[2], x.val)))
-    for rel in obs:
-        if rel not in exp:
-            out.append(('C11:%s:extra' % act, 'unexpected %s %r in the DESTDIR tree' % (obs[rel][0], rel)))
+                out.add('C11:%s:linktarget:%s' % (act, rid), 'symlink %r points to %r, expected %r' % (rel, o[2], x.val), x.entry)
+    extra = [rel for rel in obs if rel not in exp]
+    if extra:
+        # classifier: is it (or does it lead to) something that a rule of the project installs, but that --tags /
+        # --skip-subprojects left out of this run?
+        left_out = [(w.entry_rel(e), e) for e in w.proj.entries]
+        left_out = [(r, e) for r, e in left_out if r not in exp]
+        if act == 'A':
+            left_out = []       # a stopped install: everything is selected, nothing is "left out"
+        for rel in extra:
+            ent = next((e for r, e in left_out if r == rel), None) or next((e for r, e in left_out if r.startswith(rel + '/')), None)
+            if ent is None:
+                out.add('C11:%s:extra' % act, 'unexpected %s %r in the DESTDIR tree' % (obs[rel][0], rel))
+            else:
+                tg = ('documented tag(s) %s' % sorted(map(str, ent.cands))) if ent.cands is not None else 'tag %r' % ent.tag
+                out.add('C11:%s:extra:not-selected:%s' % (act, ent.rule.rid), '%s %r is in the DESTDIR tree although the rule it comes from (%s%s) '
+                        'is not selected by this run' % (obs[rel][0], rel, tg, ', subproject %r' % ent.sub if ent.sub else ''), ent)
     return out
 
 
@@ -505,8 +542,11 @@ class Runner:
         self.init_tree = {}
         self.cur_fault = None
 
-    def viol(self, key, text, path, extra=None):
+    def viol(self, key, text, path, extra=None, entry=None):
         rep = {'job': self.w.job, 'tags': self.tags, 'skip': self.skip, 'history': list(path)}
+        if entry is not None and entry.rule.guess is not None and not self.w.job['guess'].get('only'):
+            # minimal reproducer: the project reduced to the rules for the one destination directory concerned
+            rep['job'] = dict(self.w.job, guess=dict(self.w.job['guess'], only=[entry.rule.guess]))
         if self.cur_fault is not None:
             rep['fault'] = self.cur_fault
         if extra:
@@ -621,8 +661,8 @@ class Runner:
             self.res['fault_replaced'] += 1
             self.res['skipped_unspecified'] += 1
             exp, skipped = predict_install(w, {k: v for k, v in pre.items() if k != fault['rel']}, self.sel)
-            for key, text in compare_tree(w, obs, exp, 'A')[:3]:
-                self.viol(key, text, path)
+            for key, text, ent in compare_tree(w, obs, exp, 'A').first(3):
+                self.viol(key, text, path, entry=ent)
             return None
         if r.rc == 0:
             self.viol('C11:A:fault-ignored:%s' % fault['kind'], 'install exited 0 although %s cannot be installed (%s)'
@@ -648,8 +688,8 @@ class Runner:
             for i in range(1, len(parts)):
                 exp.setdefault('/'.join(parts[:i]), Exp('dir', M.UNSPEC, None, optional=True))
         self.res['skipped_unspecified'] += skipped
-        for key, text in compare_tree(w, obs, exp, 'A')[:3]:
-            self.viol(key, text, path)
+        for key, text, ent in compare_tree(w, obs, exp, 'A').first(3):
+            self.viol(key, text, path, entry=ent)
         self.res['tree_compares'] += 1
         self.res['entries_compared'] += len(exp)
         # -- the log names everything the stopped run created, and nothing it did not create
@@ -825,8 +865,8 @@ class Runner:
             exp, skipped = predict_install(w, T, self.sel)
             self.res['skipped_unspecified'] += skipped + self.tag_unspec
             problems = compare_tree(w, obs, exp, act)
-            for key, text in problems[:3]:
-                self.viol(key, text, path)
+            for key, text, ent in problems.first(3):
+                self.viol(key, text, path, entry=ent)
             self.res['tree_compares'] += 1
             self.res['entries_compared'] += len(exp)
             # -- install twice == install once (all fields, also those the docs leave open) ----------------------
@@ -1010,18 +1050,32 @@ def check_plan(w, res):
         res['viol'].append(('C11:plan:unreadable', 'install plan not readable: %s' % e, {'job': w.job}))
         return
 
+    plan_dirs = dict(PLAN_DIRS)
+    if w.dirs is not None:
+        plan_dirs.update({k: v for k, v in w.dirs.items() if k in PLAN_DIRS})
+        plan_dirs.update(libdir_shared=w.dirs['libdir'], libdir_static=w.dirs['libdir'], mandir=w.dirs['datadir'] + '/man')
+
+    def jobrep(rule):
+        if rule is not None and rule.guess is not None and not w.job['guess'].get('only'):
+            return {'job': dict(w.job, guess=dict(w.job['guess'], only=[rule.guess]))}
+        return {'job': w.job}
+
     def resolve(dest):
         if dest.startswith('{'):
             name, rest = dest[1:].split('}', 1)
             if name == 'prefix':
                 return w.prefix + rest
-            if name not in PLAN_DIRS:
+            if name not in plan_dirs:
                 return None
-            return w.prefix.rstrip('/') + '/' + PLAN_DIRS[name] + rest
+            return w.prefix.rstrip('/') + '/' + plan_dirs[name] + rest
         if dest.startswith('/'):
             return dest
         return w.prefix.rstrip('/') + '/' + dest
     want = {}
+    rule_of = {}
+    for r in w.proj.rules:
+        for section, src, where, tag in r.plan:
+            rule_of[(section, w.srcpath(src))] = r
     for section, src, where, tag in w.proj.plan:
         want[(section, w.srcpath(src))] = (M.syspath(where, w.prefix), tag)
     got = {}
@@ -1039,7 +1093,16 @@ def check_plan(w, res):
             res['skipped_unspecified'] += 1
         elif os.path.normpath(rd) != os.path.normpath(dest):
             res['viol'].append(('C11:plan:destination:' + k[0], 'plan destination of %r is %r (= %r), the rules say %r' % (k[1], ent.get('destination'), rd, dest), {'job': w.job}))
-        if ent.get('tag') != tag:
+        if isinstance(tag, frozenset):
+            # no install_tag: the tag comes from the destination (Installing.md); several candidates = not specified which
+            res['plan_guessed_tags'] += 1
+            if len(tag) > 1:
+                res['skipped_unspecified'] += 1
+            if ent.get('tag') not in tag:
+                rule = rule_of.get(k)
+                res['viol'].append(('C11:plan:tag:' + (rule.rid if rule is not None else k[0]), 'plan tag of %r (no install_tag, destination %r) is %r, the '
+                                    'documented tag rules say %s' % (k[1], ent.get('destination'), ent.get('tag'), ' or '.join(sorted(map(repr, tag), key=str))), jobrep(rule)))
+        elif ent.get('tag') != tag:
             res['viol'].append(('C11:plan:tag:' + k[0], 'plan tag of %r is %r, the rules say %r' % (k[1], ent.get('tag'), tag), {'job': w.job}))
         # the documented companion file: build-time path -> absolute system location
         if k[1] in inst:
@@ -1153,7 +1216,40 @@ COUNTERS = ('transitions', 'states', 'product_states', 'traces', 'tree_compares'
             'uninstalls', 'reversal_checks', 'idempotence_checks', 'only_changed_preserved', 'skipped_unspecified', 'replays',
             'plan_entries', 'strace_runs', 'strace_mutations', 'setups', 'built',
             'faults', 'faults_dst_is_dir', 'faults_dst_is_file', 'faults_parent_is_file', 'faults_src_gone', 'aborts', 'aborts_after_mkdir',
-            'abort_created_paths', 'abort_log_checks', 'abort_reversal_checks', 'abort_reinstall_checks', 'fault_replaced')
+            'abort_created_paths', 'abort_log_checks', 'abort_reversal_checks', 'abort_reinstall_checks', 'fault_replaced',
+            'plan_guessed_tags', 'guess_rules', 'guess_entries', 'guess_entries_one_tag', 'guess_entries_untagged', 'guess_entries_open',
+            'guess_runs', 'guess_cells', 'guess_cells_must', 'guess_cells_left_out', 'guess_cells_open', 'guess_lookalike_left_out',
+            'guess_standard_dir_must')
+
+
+def count_guess_cells(w, rn_, res):
+    """Coverage of the implicit-tag family: one cell = (entry without install_tag, --tags selection of the run)."""
+    ents = [e for e in w.proj.entries if e.cands is not None]
+    if res['guess_entries'] == 0:
+        res['guess_rules'] = len({id(e.rule) for e in ents})
+        res['guess_entries'] = len(ents)
+        res['guess_entries_one_tag'] = sum(1 for e in ents if len(e.cands) == 1 and None not in e.cands)
+        res['guess_entries_untagged'] = sum(1 for e in ents if e.cands == frozenset([None]))
+        res['guess_entries_open'] = sum(1 for e in ents if len(e.cands) > 1)
+    res['guess_runs'] += 1
+    if not rn_.tags:
+        return
+    must = {id(e): m for e, m in rn_.sel}
+    dir_tags = ('runtime', 'devel', 'i18n', 'tests', 'systemtap')
+    for e in ents:
+        res['guess_cells'] += 1
+        m = must.get(id(e))
+        if m is None:
+            res['guess_cells_left_out'] += 1
+            # an untagged entry while a tag that destinations can give is selected: the look-alike directories live here
+            if e.cands == frozenset([None]) and rn_.tags[0] in dir_tags:
+                res['guess_lookalike_left_out'] += 1
+        elif m:
+            res['guess_cells_must'] += 1
+            if rn_.tags[0] in dir_tags:
+                res['guess_standard_dir_must'] += 1
+        else:
+            res['guess_cells_open'] += 1
 
 
 def run_job(job):
@@ -1173,6 +1269,8 @@ def run_job(job):
         tags, skip, hist = run['tags'], run['skip'], run['hist']
         rn_ = Runner(w, tags, skip, res)
         init = w.initial_tree(job['init'])
+        if job['family'] == 'G':
+            count_guess_cells(w, rn_, res)
         if hist[0] == 'seq':
             rn_.run_seq(init, hist[1])
         elif hist[0] == 'abort':
@@ -1194,9 +1292,12 @@ LINEAR = ['D', 'I', 'U', 'I', 'I', 'C']
 LINEAR_PREPOP = ['D', 'I', 'F', 'U', 'I', 'I', 'C']
 
 
-def mkjob(jid, family, rules, umask, prefix, destdir, mech, init, runs, with_sub=False, sub_style='plain'):
-    return {'id': jid, 'family': family, 'rules': [list(r) for r in rules], 'umask': umask, 'prefix': prefix, 'destdir': destdir,
-            'mech': mech, 'init': init, 'runs': runs, 'with_sub': with_sub, 'sub_style': sub_style}
+def mkjob(jid, family, rules, umask, prefix, destdir, mech, init, runs, with_sub=False, sub_style='plain', guess=None):
+    j = {'id': jid, 'family': family, 'rules': [list(r) for r in rules], 'umask': umask, 'prefix': prefix, 'destdir': destdir,
+         'mech': mech, 'init': init, 'runs': runs, 'with_sub': with_sub, 'sub_style': sub_style}
+    if guess is not None:
+        j['guess'] = guess
+    return j
 
 
 def run_spec(tags, skip, hist, strace=False):
@@ -1309,11 +1410,25 @@ def jobs_for(ck):
             jobs.append(mkjob('A-%d' % idx, 'A', rules, M.UMASKS[c], (idx + pi) % 2, M.DESTDIRS[d], 'flag' if (idx + pi) % 2 else 'env', init,
                               [run_spec(None, None, ('abort', None))], with_sub=(pi == 0), sub_style=M.STYLES[(a + 1) % 3]))
             idx += 1
+    # family G: the --tags clause for items WITHOUT install_tag, whose tag follows from the destination directory.  One project
+    # per kind of rule that is tagged this way x directory layout; the project holds one rule per destination directory of
+    # c11model.guess_bases x GUESS_MIDS (x file extension); it is installed with no --tags and with every single documented tag.
+    idx = 0
+    gtags = [None] + [[t] for t in M.DOC_TAGS] + [['nosuch']]
+    for kind in M.GUESS_KINDS:
+        for di in range(len(M.DIRSETS)):
+            rows = [OA9[(idx + seed + 3 * k) % 9] for k in range(3 if ck.thorough else 1)]
+            for a, b, c, d in rows:
+                runs = [run_spec(t, None, ('seq', ['I', 'U'])) for t in gtags]
+                jobs.append(mkjob('G-%d' % idx, 'G', [('guess:' + kind, M.STYLES[a], 'unset')], M.UMASKS[c], idx % 2, M.DESTDIRS[d],
+                                  'flag' if (idx // 2) % 2 else 'env', 'prepop' if (idx // 3) % 2 else 'absent', runs,
+                                  guess={'dirset': di, 'only': None}))
+                idx += 1
     return jobs
 
 
 def job_cost(j):
-    c = 0
+    c = 400 if j['family'] == 'G' else 0
     for r in j['runs']:
         c += 50 if r['hist'][0] == 'bfs' else 100 if r['hist'][0] == 'abort' else len(r['hist'][1])
         c += 8 if r.get('strace') else 0
